@@ -45,6 +45,10 @@ var (
 
 var verifTablePaths = [...]string{"/t", "/t/a", "/u/b", "rel/d"}
 
+// alternative population: paths whose filepath.Dir is themselves ("." and "/"),
+// and a relative path whose parent is the watched "."
+var verifTablePathsB = [...]string{".", "sub", "/", "sub/x"}
+
 func verifLE32(b []byte, o int) uint32 { return verifLoad32(b, o) }
 
 const verifHousekeeping = unix.IN_IGNORED | unix.IN_UNMOUNT | unix.IN_Q_OVERFLOW | unix.IN_DELETE_SELF | unix.IN_MOVE_SELF
@@ -67,6 +71,9 @@ func verifSetupTable(w *inotify, W int) {
 		}
 		flags := verifU32("flags")
 		p := verifTablePaths[i]
+		if verifParam("TABLEB") != 0 {
+			p = verifTablePathsB[i]
+		}
 		verifTable[i] = verifEnt{wd: wd, path: p, live: true}
 		w.watches.wd[wd] = &watch{wd: wd, flags: flags, path: p}
 		w.watches.path[p] = wd
